@@ -12,7 +12,13 @@ CLAIMS = {
          "toward zero, and that mixed kinds are errors - for all 64-bit operands. Tied to objects.rs by running the real "
          "parser+interpreter and the extracted model on all ordered pairs of a boundary set (i64 and u64) under every "
          "operator, as literals and as variables, plus random pairs; debug and release profiles in the thorough tier."),
- "C09": ("Theorems: != is the negation of ==; comparison of int/uint with double is the comparison of the exact numbers denoted (NaN unordered); trichotomy, <= iff < or ==, antisymmetry for all values; code-point order of strings; list and map equality characterised element-wise; unrelated kinds unequal and unordered; max/min bound lemma; transitivity for int/uint, strings and int-double-int chains (partial: chains with two doubles rely on SpecFloat.SFcompare, trusted). Tied to objects.rs/functions.rs by all pairs of a ~100-value boundary set through Value::eq/partial_cmp and 12 program forms, with the laws also evaluated on the implementation own answers (pairs and triples)."),
+ "C09": ("Theorems: != is the negation of ==; comparison and equality among int, uint and double are those of the exact numbers denoted (NaN unordered) - for EVERY pair, two doubles "
+         "included: SpecFloat's IEEE comparison of valid doubles is proved to be the comparison of the rationals m*2^e (a valid mantissa has 53 bits unless the exponent is minimal), and "
+         "every 64-bit pattern is proved to decode to a valid double; trichotomy, <= iff < or ==, antisymmetry for all values; TRANSITIVITY of < wherever it is defined (numbers of the three "
+         "kinds mixed freely, strings, bools, durations, timestamps); code-point order of strings; list and map equality characterised element-wise; unrelated kinds unequal and unordered; "
+         "max returns an element bounding all others for every non-empty list of numbers without NaN (and in general for any list on which the order is reflexive and transitive). Validity "
+         "of doubles produced by arithmetic is SpecFloat's (not proved here). Tied to objects.rs/functions.rs by all pairs of a ~100-value boundary set through Value::eq/partial_cmp "
+         "and 12 program forms, with the laws also evaluated on the implementation's own answers (pairs and triples)."),
  "C10": ("Theorems that evaluating the parser's expansion of all / exists / exists_one / map (2 and 3 arguments) / filter equals "
          "evaluating the range once and then a readable left-to-right fold over its elements (map: its keys) that stops at the "
          "deciding element, aborts at the first error reached and logs exactly the visited elements' host calls - for every "
